@@ -131,8 +131,12 @@ NoSites == [sites |-> <<>>, amb |-> FALSE]
 
 (* mk = +i: a primer of marker i read directly (the 5' end of an amplicon), -i: its partner *)
 (* read reverse-complemented (the 3' end); fw: the amplicon runs forward -> reverse.        *)
-(* full = FALSE: as the code does, the partner is looked for only behind the first direct   *)
-(* hit; full = TRUE: every hit of every pattern (the property-level list)                   *)
+(* full = TRUE: every hit of every pattern - "all primer hits of all markers", the list the *)
+(* property speaks of; it is mirror-symmetric under reverse complementation.                *)
+(* full = FALSE: the partner pattern is searched only behind the first direct hit of its    *)
+(* primer (a shortcut the code took as received): the hits of a read and of its reverse     *)
+(* complement are then not mirror images of each other any more (kept to tell which reads   *)
+(* are sensitive to it).                                                                    *)
 MarkerMatches(mk, i, S, full) ==
   LET F  == AllMatchesM(mk.fP, S, mk.ef, mk.indel, 0)
       cR == IF full THEN AllMatchesM(Comp(mk.rP), S, mk.er, mk.indel, 0)
@@ -218,13 +222,18 @@ OutsOf(sheet, S, pairs) ==
 (* is none the read itself is returned flagged "No barcode identified".  amb: the read has  *)
 (* tied / non-unique priming sites, the list is one of several acceptable ones.             *)
 DemuxRead(sheet, S) ==
-  LET rm == ReadMatches(sheet, S, FALSE)
+  LET rm == ReadMatches(sheet, S, TRUE)
   IN  [outs |-> OutsOf(sheet, S, ScanPairs(rm.ms)), amb |-> rm.amb]
 
-(* the same from the property-level pairing on all hits *)
+(* the same sentence read declaratively: pairs of consecutive hits (+i, -i) *)
 DemuxReadRef(sheet, S) ==
   LET rm == ReadMatches(sheet, S, TRUE)
   IN  [outs |-> OutsOf(sheet, S, AdjacentPairs(rm.ms)), amb |-> rm.amb]
+
+(* the scan on the shortened hit list (partner searched behind the first direct hit only) *)
+DemuxReadShortcut(sheet, S) ==
+  LET rm == ReadMatches(sheet, S, FALSE)
+  IN  [outs |-> OutsOf(sheet, S, ScanPairs(rm.ms)), amb |-> rm.amb]
 
 (* strand symmetry: the reverse-complemented read yields the same amplicons in reverse     *)
 (* order, each with the direction flipped                                                   *)
